@@ -109,8 +109,15 @@ theorem accepted_in_grid (c : Cfg) (m : Mask) (qx qy rx ry : Rat) (h : accepts c
   unfold accepts at h
   rw [Bool.and_eq_true] at h
   have hg := h.1
-  simp only [Gen.Samp.inGrid, decide_eq_true_eq, Int.cast_zero] at hg
-  exact ⟨ratTrunc_range qx c.nx hg.1 hg.2.1, ratTrunc_range qy c.ny hg.2.2.1 hg.2.2.2⟩
+  -- robust against the spelling of the guard (order of the four tests, `>=` vs `<=`, chained comparisons,
+  -- negated forms): normalise, then pick the four facts out of the conjunction whatever its shape
+  simp only [Gen.Samp.inGrid, decide_eq_true_eq, Int.cast_zero, ge_iff_le, gt_iff_lt, not_lt, not_le, not_or,
+    not_and_or] at hg
+  have a1 : (0:ℚ) ≤ qx := by grind
+  have a2 : qx < (c.nx : ℚ) := by grind
+  have a3 : (0:ℚ) ≤ qy := by grind
+  have a4 : qy < (c.ny : ℚ) := by grind
+  exact ⟨ratTrunc_range qx c.nx a1 a2, ratTrunc_range qy c.ny a3 a4⟩
 
 /-- one outer iteration changes `mask` at most at one cell, and only to 1 -/
 theorem step_mask (c : Cfg) (s : PState) (i : Nat) (cs : List Cand) (y x : Int) :
@@ -514,10 +521,16 @@ theorem never_unbound (e : Env) (fuel : Nat) (h : 1 ≤ e.nx ∨ 1 ≤ e.ny) : p
           exact absurd (ih _ _ _ h).1 (by simp)
   intro hu
   have := (key fuel _ _ _ hu).2
-  simp only [Gen.Samp.loopCond, Gen.Samp.slopeMin0, Gen.Samp.slopeMax0, pyMax] at this
-  have : ((if e.nx ≥ e.ny then e.nx else e.ny : Int) : ℚ) ≤ 0 := by simpa using this
-  have h2 : (if e.nx ≥ e.ny then e.nx else e.ny : Int) ≤ 0 := by exact_mod_cast this
-  split_ifs at h2 <;> omega
+  -- robust against `max(ny, nx)` / a hoisted `n_max`: only `1 ≤ max(..)` in either argument order is used
+  simp only [Gen.Samp.loopCond, Gen.Samp.slopeMin0, Gen.Samp.slopeMax0] at this
+  have hn := of_decide_eq_false this
+  have g1 : 1 ≤ pyMax e.nx e.ny := by unfold pyMax; split_ifs <;> omega
+  have g2 : 1 ≤ pyMax e.ny e.nx := by unfold pyMax; split_ifs <;> omega
+  have g1q : (1:ℚ) ≤ ((pyMax e.nx e.ny : Int) : ℚ) := by exact_mod_cast g1
+  have g2q : (1:ℚ) ≤ ((pyMax e.ny e.nx : Int) : ℚ) := by exact_mod_cast g2
+  push_cast at hn g1q g2q
+  rw [not_lt] at hn
+  linarith
 
 theorem bounds_cases (e : Env) (acc : Option Rat) (slope lo hi : Rat) :
     bounds e acc slope lo hi = (slope, hi) ∨ bounds e acc slope lo hi = (lo, slope) := by
@@ -533,7 +546,8 @@ theorem bisection_direction (a accel slope lo hi : Rat) :
   constructor <;> intro h <;> simp [h]
 
 theorem stallCond_iff (slope lo hi : Rat) : Gen.Samp.stallCond slope lo hi = true ↔ (slope = lo ∨ slope = hi) := by
-  simp [Gen.Samp.stallCond]
+  simp only [Gen.Samp.stallCond, decide_eq_true_eq]
+  grind
 
 /-- **exact arithmetic**: with an exact midpoint (`slope_min < mid < slope_max`, e.g. `Gen.Samp.slopeMid` over
     the rationals) the interval never collapses and the midpoint never equals an end point, so neither the
